@@ -124,6 +124,42 @@ variable (σ : St) (t : Nat)
   unfold checkDone; repeat' split
   all_goals first | exact waitDone_th σ t u h | (rw [waitDone_th _ t u h]) | frame_simp
 
+@[simp] theorem recvDropTail_ring : (recvDropTail σ t).ring = σ.ring := by
+  unfold recvDropTail; simp only []; repeat' split
+  all_goals rfl
+@[simp] theorem recvDropTail_th (u : Nat) (h : u ≠ t) : (recvDropTail σ t).th u = σ.th u := by
+  unfold recvDropTail; simp only []; repeat' split
+  all_goals frame_simp
+
+@[simp] theorem sendDropTail_ring : (sendDropTail σ t).ring = σ.ring := by
+  unfold sendDropTail; repeat' split
+  all_goals rfl
+@[simp] theorem sendDropTail_th (u : Nat) (h : u ≠ t) : (sendDropTail σ t).th u = σ.th u := by
+  unfold sendDropTail; repeat' split
+  all_goals frame_simp
+
+@[simp] theorem mgrDone_ring (k : MK) : (mgrDone σ t k).ring = σ.ring := by
+  unfold mgrDone; simp only []; repeat' split
+  all_goals first | rfl | exact sendDone_ring σ t _ | (simp only [recvDropTail_ring, sendDropTail_ring]; rfl)
+@[simp] theorem mgrDone_th (k : MK) (u : Nat) (h : u ≠ t) : (mgrDone σ t k).th u = σ.th u := by
+  unfold mgrDone; simp only []; repeat' split
+  all_goals first
+    | exact sendDone_th σ t _ u h
+    | (simp only [recvDropTail_th _ t u h, sendDropTail_th _ t u h])
+    | frame_simp
+
+@[simp] theorem freeEnd_ring (k : MK) : (freeEnd σ t k).ring = σ.ring := by
+  unfold freeEnd; split <;> (simp only [mgrDone_ring]; try rfl)
+@[simp] theorem freeEnd_th (k : MK) (u : Nat) (h : u ≠ t) : (freeEnd σ t k).th u = σ.th u := by
+  unfold freeEnd; split <;> simp only [mgrDone_th _ t _ u h]
+
+@[simp] theorem freeTail_ring (k : MK) : (freeTail σ t k).ring = σ.ring := by
+  unfold freeTail; repeat' split
+  all_goals first | rfl | (simp only [mgrDone_ring]; try rfl)
+@[simp] theorem freeTail_th (k : MK) (u : Nat) (h : u ≠ t) : (freeTail σ t k).th u = σ.th u := by
+  unfold freeTail; repeat' split
+  all_goals first | (simp only [mgrDone_th _ t _ u h]) | frame_simp
+
 end helpers
 end MQ
 
@@ -132,11 +168,6 @@ namespace MQ
 theorem stepLa2_th (σ0 σ : St) (t : Nat) (x : Th) (s u : Nat) (h : u ≠ t) :
     (stepRun.stepLa2 σ0 σ t x s).2.th u = σ.th u := by
   unfold stepRun.stepLa2; simp only []; repeat' split
-  all_goals frame_simp
-
-theorem recvDropEnd_th (σ : St) (t : Nat) (x : Th) (f : List Ord) (u : Nat) (h : u ≠ t) :
-    (stepRun.recvDropEnd σ t x f).th u = σ.th u := by
-  unfold stepRun.recvDropEnd; simp only []; repeat' split
   all_goals frame_simp
 
 theorem startNotify2_th (σ : St) (t u : Nat) (h : u ≠ t) : (stepRun.startNotify2 σ t).th u = σ.th u := by
@@ -151,6 +182,6 @@ theorem stepRun_th (σ : St) (t inp u : Nat) (h : u ≠ t) : (stepRun σ t inp).
   all_goals (repeat' split)
   all_goals first
     | rfl
-    | (simp +contextual [St.goto, St.gotoF, St.setTh, St.setHd, St.flush, upd, h, stepLa2_th, recvDropEnd_th, startNotify2_th])
+    | (simp +contextual [St.goto, St.gotoF, St.setTh, St.setHd, St.flush, upd, h, stepLa2_th, startNotify2_th])
 
 end MQ
